@@ -135,6 +135,20 @@ ZOO: dict[str, dict] = {
         },
         "marks": {"em": {}},
     },
+    # inline nodes that have content of their own (an inline "chip" holding text) and an atom node that is not a leaf
+    # (a figure treated as one unit although it has inline content): both are legal and neither is in the bundled schemas
+    "inline_box": {
+        "nodes": {
+            "doc": {"content": "block+"},
+            "paragraph": {"content": "inline*", "group": "block"},
+            "figure": {"content": "inline*", "group": "block", "atom": True, "attrs": {"kind": {"default": "fig"}}},
+            "blockquote": {"content": "block+", "group": "block"},
+            "chip": {"content": "text*", "inline": True, "group": "inline", "attrs": {"id": {"default": None}}},
+            "image": {"inline": True, "group": "inline", "attrs": {"src": {}, "alt": {"default": None}, "title": {"default": None}}},
+            "text": {"group": "inline"},
+        },
+        "marks": {"em": {}, "strong": {}, "link": {"attrs": {"href": {}, "title": {"default": None}}, "inclusive": False}},
+    },
     # mark variants (C13/C14 and the "every schema" clauses)
     "comment": {
         "nodes": copy.deepcopy(_LIST),
@@ -190,9 +204,10 @@ GROUP_V = [
     "table_strict",
     "table_iso",
 ]
-GROUP_X = ["fixed", "structure"]
+GROUP_X = ["fixed", "structure", "inline_box"]
 MARK_VARIANTS = ["comment", "big_small", "remark_user", "asym_chain", "non_inclusive"]
 ISOLATING = ["iso", "table", "table_strict", "table_iso"]
+INLINE_BOX = ["inline_box"]
 
 _cache: dict[str, tuple[Any, RefSchema]] = {}
 rx.on_reset(_cache.clear)
